@@ -39,6 +39,7 @@ EXPLANATION = (
 )
 NONTRIVIAL_RULE = "executed a transition whose target resolved (the configuration could change)"
 BOUNDS = {
+    "descendant_smt": "BaseInterpreter._is_descendant (the subtree test behind exit sets, history records and doneness) on a fixed 7-node tree (depth 3) whose machine id and six state keys are non-empty strings of ANY length without '.', sibling keys distinct; all 49 (node, candidate ancestor) pairs; decided by executing the function's AST on z3 string terms (vf/ast2smt.py, z3 + cvc5), not by CrossHair. Dotted keys and custom ids are outside",
     "base_start": "every skeleton of the tier's family; engine in {sync, async}",
     "step_node": "skeleton fixed per item; every legal configuration (<=6 simultaneously active compound choices) with every recorded-history assignment reachable through the public API, every active source, every node as target, reenter in {T,F}, both engines",
     "step_string": "skeleton fixed per item; target = any str with 0 < len <= L (L in item label) resolved by a standard attempt; every configuration/history/reenter; source fixed per item",
@@ -466,7 +467,124 @@ def _public_step(**_args: Any) -> Any:
 
 PUBLIC_REPLAY = {"step_node": _public_step, "step_string": _public_step, "step_unres": _public_step}
 
+# ---------------------------------------------------------------------------
+# the subtree test every exit set / history record / doneness test rests on,
+# for state keys of ANY length: AST -> SMT (vf/ast2smt.py), no CrossHair
+# ---------------------------------------------------------------------------
+
+# fixed 7-node shape; the keys (and the machine id) are the symbolic part
+DESC_PARENT = [None, 0, 0, 1, 1, 2, 3]          # n0 root; n1, n2 its children; n3, n4 below n1; n5 below n2; n6 below n3
+DESC_KEY = [None, "k1", "k2", "k3", "k4", "k5", "k6"]
+
+
+def _desc_is_anc(a: int, n: int) -> bool:
+    while n is not None:
+        if n == a:
+            return True
+        n = DESC_PARENT[n]      # type: ignore[assignment]
+    return False
+
+
+def descendant_smt(mid: str, k1: str, k2: str, k3: str, k4: str, k5: str, k6: str, i: int, j: int) -> bool:
+    """Native body (replay of a solver model): builds the real machine with these keys and asks the real
+    BaseInterpreter._is_descendant about the node pair (i, j).  The deciding run is ``_smt_descendant``.
+
+    post: _
+    """
+    from xstate_statemachine import create_machine
+    from xstate_statemachine.base_interpreter import BaseInterpreter
+
+    keys = {"k1": k1, "k2": k2, "k3": k3, "k4": k4, "k5": k5, "k6": k6}
+    if any((not v) or "." in v for v in list(keys.values()) + [mid]) or k1 == k2 or k3 == k4:
+        return verdict(True, nontrivial=False)
+    cfg = {"id": mid, "initial": k1, "states": {
+        k1: {"initial": k3, "states": {k3: {"initial": k6, "states": {k6: {}}}, k4: {}}},
+        k2: {"initial": k5, "states": {k5: {}}}}}
+    m = create_machine(cfg)
+    nodes = [m, m.states[k1], m.states[k2], m.states[k1].states[k3], m.states[k1].states[k4], m.states[k2].states[k5],
+             m.states[k1].states[k3].states[k6]]
+    got = bool(BaseInterpreter._is_descendant(nodes[i], nodes[j]))
+    want = _desc_is_anc(j, i)
+    if got != want:
+        _note(f"_is_descendant({nodes[i].id!r}, {nodes[j].id!r}) = {got}, but in the tree the second is {'an' if want else 'NOT an'} ancestor-or-self of the first")
+    return verdict(got == want)
+
+
+def _smt_descendant(fn: Any, timeout: float = 60.0, per_path_timeout: float = 20.0) -> Dict[str, Any]:
+    import time as _t
+
+    import z3
+
+    from vf import ast2smt, kf
+    from xstate_statemachine.base_interpreter import BaseInterpreter
+
+    t0 = _t.perf_counter()
+    mid = z3.String("mid")
+    ks = {k: z3.String(k) for k in DESC_KEY[1:]}
+    dot = z3.StringVal(".")
+    assumptions = [z3.Length(v) > 0 for v in list(ks.values()) + [mid]] + [z3.Not(z3.Contains(v, dot)) for v in list(ks.values()) + [mid]]
+    assumptions += [ks["k1"] != ks["k2"], ks["k3"] != ks["k4"]]
+    ids: List[Any] = [mid]
+    for n in range(1, 7):
+        ids.append(z3.Concat(ids[DESC_PARENT[n]], dot, ks[DESC_KEY[n]]))
+    nodes = [ast2smt.SymObj(f"n{n}", id=ids[n]) for n in range(7)]
+    names = ["mid"] + DESC_KEY[1:]
+    tot = {"paths": 0, "z3_queries": 0, "solver_s": 0.0, "cvc5": 0}
+    twin = kf.TWIN
+    res: Dict[str, Any] = {"obligation": "descendant_smt", "verdict": "confirmed", "cex": None, "message": ""}
+    for i in range(7):
+        for j in range(7):
+            want = _desc_is_anc(j, i)
+
+            def on_return(ex: Any, value: Any, want: bool = want) -> Any:
+                if twin:
+                    r, mdl = ex.check()
+                    return mdl if r == "sat" else None
+                if isinstance(value, bool):
+                    bad: Any = z3.BoolVal(value != want)
+                elif z3.is_bool(value):
+                    bad = value != z3.BoolVal(want)
+                else:
+                    raise ast2smt.Unsupported("return value is not a truth value")
+                printable = [z3.InRe(v, z3.Star(z3.Range("!", "~"))) for v in list(ks.values()) + [mid]]
+                r, mdl = ex.check(bad, *printable)
+                if r == "sat":
+                    return mdl
+                r, mdl = ex.check(bad)
+                if r == "unknown":
+                    raise ast2smt.Unsupported("both solvers answered unknown on the property query")
+                return mdl if r == "sat" else None
+
+            out = ast2smt.explore(BaseInterpreter._is_descendant, lambda i=i, j=j: {"node": nodes[i], "ancestor": nodes[j]}, assumptions,
+                                  on_return, max(5.0, timeout - (_t.perf_counter() - t0)), names=names)
+            tot["paths"] += out["paths"]
+            tot["z3_queries"] += out["z3_queries"]
+            tot["solver_s"] += out["solver_s"]
+            tot["cvc5"] += out.get("cvc5_queries", 0)
+            if out["verdict"] == "refuted":
+                mdl = out["model"]
+                cex = {nm: ast2smt.model_str(mdl, (mid if nm == "mid" else ks[nm])) for nm in names}
+                cex.update({"i": i, "j": j})
+                res.update({"verdict": "refuted", "cex": cex})
+                break
+            if out["verdict"] != "confirmed":
+                res.update({"verdict": "unknown", "message": out["message"]})
+                break
+        if res["verdict"] != "confirmed":
+            break
+    res.update({"paths": tot["paths"], "z3_queries": tot["z3_queries"], "solver_s": round(tot["solver_s"], 3), "wall_s": round(_t.perf_counter() - t0, 3)})
+    if not res["message"]:
+        res["message"] = (f"AST->SMT of _is_descendant on a 7-node tree with symbolic keys of any length: 49 node pairs, {tot['paths']} paths; "
+                          f"{tot['cvc5']} queries went to cvc5 after z3 answered unknown")
+    kf.HITS["oracle"] += max(1, tot["paths"])
+    kf.HITS["nontrivial"] += max(1, tot["paths"])
+    return res
+
+
+descendant_smt.smt_runner = _smt_descendant  # type: ignore[attr-defined]
+
 OBLIGATIONS = {
+    "descendant_smt": descendant_smt,
     "base_start": base_start,
     "step_node": step_node,
     "step_string": step_string,
@@ -515,7 +633,7 @@ def items(tier: str, seed: int) -> List[Dict[str, Any]]:
     out: List[Dict[str, Any]] = []
     quick = tier == "quick"
     fam = _family(tier, seed)
-    cur = list(skeletons.CURATED.items())
+    cur = [(k, v) for k, v in skeletons.CURATED.items() if not (quick and k == "CUR17")]   # CUR17 (20 nodes): thorough tier only here; C11 runs it in both tiers
     for sid, spec in cur + fam:
         out.append({"ob": "base_start", "params": {"sid": sid, "spec": spec}, "timeout": 30, "label": f"base_start[{sid}]"})
     for sid, spec in cur:
@@ -555,6 +673,7 @@ def items(tier: str, seed: int) -> List[Dict[str, Any]]:
             for eng in (0, 1):
                 out.append({"ob": "macro_step", "params": {"sid": sid, "spec": skeletons.CURATED[sid], "eng": eng, "event": ev, "wired": True},
                             "timeout": 330 if quick else 900, "label": f"macro_step[{sid},{ev},{'sync' if eng == 0 else 'async'}]"})
+    out.append({"ob": "descendant_smt", "params": {"sid": "CUR1", "spec": skeletons.CURATED["CUR1"]}, "timeout": 300, "label": "descendant_smt[7-node tree, keys of any length]"})
     for sid, spec in cur + fam[: (10 if quick else 40)]:
         out.append({"ob": "snapshot_legal", "params": {"sid": sid, "spec": spec}, "timeout": 60, "label": f"snapshot_legal[{sid}]"})
     return out
